@@ -114,3 +114,38 @@ Theorem C05_example_join : join (CBV 4) (CS 4) = Some (CBV 4) /\ dep_join (CBV 4
   dep_join (CS 4) (CBV 4) = false /\ join CBool CBit = Some CBit.
 Proof. exact ex_join. Qed.
 Print Assumptions C05_example_join.
+
+(** Null / Full are never joined with the other option of a merge: each option is converted to the assignment target
+    on its own, so Full is filled at the TARGET width (all widths) *)
+Theorem C05_merge3_null_full : forall a o tgt,
+  o = CNull \/ o = CFull ->
+  join a o = None /\ join o a = None /\
+  merge_ok a o tgt = redirect_ok a tgt && redirect_ok o tgt /\
+  merge_ok o a tgt = redirect_ok o tgt && redirect_ok a tgt.
+Proof. exact merge3_null_full. Qed.
+Print Assumptions C05_merge3_null_full.
+
+Theorem C05_full_at_target_width : forall k m,
+  let tgt := mkvec k m in
+  ceval (cast_emit tgt tgt CFull) (VI 0) = Ok (enc tgt (ones m)) /\
+  ceval (cast_emit tgt tgt CNull) (VI 0) = Ok (enc tgt 0).
+Proof. exact full_at_target_width. Qed.
+Print Assumptions C05_full_at_target_width.
+
+(** merges whose other option is Null, Full or a narrower run-time value: bounded (widths 1..4, 8 = the universe the
+    harness generates; checked exhaustively by vm_compute, not proved for all widths): whatever is accepted converts
+    both options by documented conversions, directly or through the type of one of them, outside [m3_dep] *)
+Theorem C05_merge3_sound_bounded : forall a o tgt,
+  In tgt (filter is_target m3_sources) -> In a m3_sources -> In o (m3_others tgt) ->
+  m3_dep a tgt = false -> m3_dep o tgt = false ->
+  merge_ok a o tgt = true \/ merge_ok o a tgt = true -> m3_doc a o tgt = true.
+Proof. exact merge3_sound_use. Qed.
+Print Assumptions C05_merge3_sound_bounded.
+
+Theorem C05_example_merge3 :
+  merge_ok (CU 2) CFull (CS 3) = true /\ merge_ok CFull (CU 2) (CU 3) = true /\ merge_ok (CU 2) (CU 2) (CU 3) = true /\
+  merge_ok (CS 2) (CU 2) (CS 3) = true /\ merge_ok (CS 2) (CU 2) (CU 3) = false /\
+  assign_ok (FView KU) (CS 2) (CS 3) = true /\
+  ceval (cast_emit (CU 3) (CS 3) (CS 2)) (enc (CS 2) 3) = Ok (VV KUns 3 7).
+Proof. exact ex_merge3. Qed.
+Print Assumptions C05_example_merge3.
